@@ -412,3 +412,65 @@ def run_check(prop_id: str, body, argv=None):
             ctx.model.close()
     print(f"[{prop_id}] {status}; evaluations={ctx.evaluations} wall={time.time()-ctx.t0:.1f}s")
     sys.exit(code)
+
+
+# --------------------------------------------------------------------------------------------
+# process helpers (engine B/C)
+
+
+def descendants(pid: int | None = None) -> list:
+    """[(pid, cmdline, state)] of all live descendants of pid (default: this process)."""
+    pid = pid or os.getpid()
+    children = {}
+    info = {}
+    for d in os.listdir("/proc"):
+        if not d.isdigit():
+            continue
+        try:
+            with open(f"/proc/{d}/stat") as fh:
+                st = fh.read()
+            rp = st.rindex(")")
+            fields = st[rp + 2 :].split()
+            state, ppid = fields[0], int(fields[1])
+            with open(f"/proc/{d}/cmdline", "rb") as fh:
+                cmd = fh.read().replace(b"\0", b" ").decode(errors="replace").strip()
+        except Exception:  # noqa
+            continue
+        children.setdefault(ppid, []).append(int(d))
+        info[int(d)] = (cmd, state)
+    out, stack = [], [pid]
+    while stack:
+        p = stack.pop()
+        for c in children.get(p, []):
+            out.append((c, info[c][0], info[c][1]))
+            stack.append(c)
+    return out
+
+
+def kill_descendants(match: str | None = None):
+    import signal
+
+    for p, cmd, _ in descendants():
+        if match is None or match in cmd:
+            try:
+                os.kill(p, signal.SIGKILL)
+            except Exception:  # noqa
+                pass
+
+
+def call_with_timeout(fn, timeout: float):
+    """Run fn() in a daemon thread; returns ('ok', value) | ('exc', exception) | ('timeout', None)."""
+    import threading
+
+    box = {}
+
+    def run():
+        try:
+            box["v"] = ("ok", fn())
+        except BaseException as e:  # noqa
+            box["v"] = ("exc", e)
+
+    th = threading.Thread(target=run, daemon=True)
+    th.start()
+    th.join(timeout)
+    return box.get("v", ("timeout", None))
